@@ -5,6 +5,7 @@
 package main
 
 import (
+	"encoding/json"
 	"flag"
 	"fmt"
 	"go/ast"
@@ -147,7 +148,7 @@ func leanStrList(l []string) string {
 // package-level variables and the functions that write them
 type globalVar struct {
 	pkg, name, kind string
-	writers        []string
+	writers         []string
 }
 
 func globals(repo, dir string) []globalVar {
@@ -309,9 +310,67 @@ func uniq(l []string) []string {
 	return o
 }
 
+// transcribedFacts: for every Go function a model file says it transcribes (spec/transcribed.json, "dir:Recv.Name" or
+// "dir:Name"), whether that function still exists in the current source
+func transcribedFacts(repo, specPath string) string {
+	var sb strings.Builder
+	sb.WriteString("\n/-- (model file, Go function it transcribes, still present in the source) -/\ndef transcribed : List (String × String × Bool) := [\n")
+	raw, err := os.ReadFile(specPath)
+	table := map[string][]string{}
+	if err == nil {
+		err = json.Unmarshal(raw, &table)
+	}
+	if err != nil {
+		sb.WriteString("  (\"spec/transcribed.json\", \"unreadable\", false)]\n")
+		return sb.String()
+	}
+	index := map[string]map[string]bool{} // dir -> set of Recv.Name / Name
+	have := func(dir, name string) bool {
+		if index[dir] == nil {
+			index[dir] = map[string]bool{}
+			for _, f := range parseDir(repo, dir) {
+				for _, d := range f.Decls {
+					fd, ok := d.(*ast.FuncDecl)
+					if !ok {
+						continue
+					}
+					n := fd.Name.Name
+					if fd.Recv != nil && len(fd.Recv.List) > 0 {
+						n = exprRecv(fd.Recv.List[0].Type) + "." + n
+					}
+					index[dir][n] = true
+				}
+			}
+		}
+		return index[dir][name]
+	}
+	var models []string
+	for m := range table {
+		models = append(models, m)
+	}
+	sort.Strings(models)
+	first := true
+	for _, m := range models {
+		for _, fn := range table[m] {
+			i := strings.LastIndex(fn, ":")
+			if i < 0 {
+				continue
+			}
+			if !first {
+				sb.WriteString(",\n")
+			}
+			first = false
+			fmt.Fprintf(&sb, "  (%q, %q, %v)", m, fn, have(fn[:i], fn[i+1:]))
+		}
+	}
+	sb.WriteString("]\n")
+	return sb.String()
+}
+
 func main() {
 	repo := flag.String("repo", "/repo", "repository root")
 	out := flag.String("out", "", "output directory for generated Lean files")
+	spec := flag.String("transcribed", "../spec/transcribed.json", "table: model file -> Go functions it transcribes")
 	flag.Parse()
 	mp4 := parseDir(*repo, "mp4")
 	var b strings.Builder
@@ -356,7 +415,9 @@ func main() {
 			fmt.Fprintf(&b, "  (%q, %q, %q, %s)", g.pkg, g.name, g.kind, leanStrList(g.writers))
 		}
 	}
-	b.WriteString("]\n\nend Mp4ff.Generated\n")
+	b.WriteString("]\n")
+	b.WriteString(transcribedFacts(*repo, *spec))
+	b.WriteString("\nend Mp4ff.Generated\n")
 	if *out == "" {
 		fmt.Print(b.String())
 		return
